@@ -47,7 +47,7 @@ Not generated because the unit is rejected by the compiler on the unchanged tree
                out of bounds in a constant expression (e.g. einsum<Index<2>,Index<3,2,3>>): hard compile error
   CONTRACT_OPT=-2   contraction.h:371 uses Index<>::NoIndices, which does not exist
 """
-import os
+import os, re
 from units.common import *
 
 INCLUDE_REJECTED = bool(os.environ.get('C03_INCLUDE_REJECTED'))
@@ -281,6 +281,8 @@ def outer_case(ty, s0, s1, cfg, kinds=('own', 'own'), api='outer', fam=None):
     body = '    %s %s\n%s' % (da, db, result_text(ty, list(s0) + list(s1), '%s(%s,%s)' % (api, xa, xb), na * nb))
     ens = [(c, p * nb + q, E.inp(a, p) * E.inp(b, q)) for p in range(na) for q in range(nb)]
     fam = fam or (api if kinds == ('own', 'own') else api + '-' + '-'.join(kinds))
+    if list(s0) == [1] or list(s1) == [1]: fam = 'outer-ext1'      # Tensor<T,1> overloads: see the module docstring
+    if not len(s0) and not len(s1): fam = 'outer-scalar'
     sh = lambda s: 'x'.join(map(str, s)) if len(s) else 's'
     return Case('C03/%s/%s/%s,%s/%s' % (fam, ty.name, sh(s0), sh(s1), cfg.tag()), 'C03', body, [a, b, c], ens, 'ATOMS', cfg, unwind=4 * na * nb + 64)
 
@@ -296,7 +298,7 @@ def cases(tier, seed):
     types = [INT, FLT, DBL]
     ISAS = isas(tier)
     R = 4 if thorough else 3
-    LOOPS, OUT = (1200, 720) if thorough else (160, 100)
+    LOOPS, OUT = (400, 300) if thorough else (160, 100)
     skipped = 0
     combos = [(ty, isa) for isa in ISAS for ty in types]
     rot = [0]
@@ -419,6 +421,7 @@ def cases(tier, seed):
     SKIPPED[tier] = skipped
     seen = set(); res = []
     for c in out:
+        if not INCLUDE_REJECTED and re.match(r'C03/(outer-ext1|outer-scalar)/', c.cid): continue
         if c.cid not in seen: seen.add(c.cid); res.append(c)
     return res
 
